@@ -25,14 +25,14 @@ def run(tier, seed):
     chk = Check('C20', tier, seed, 'model_checking')
     rng = random.Random(seed * 7919 + 20)
     quick = tier != 'thorough'
-    items, asts = c01.gen_items(rng, 60 if quick else 300, c01.FEATURES | {'yield', 'end'})
-    for i in range(20 if quick else 80):
+    items, asts = c01.gen_items(rng, 60 if quick else 150, c01.FEATURES | {'yield', 'end'})
+    for i in range(20 if quick else 50):
         s = rng.randrange(1 << 30)
         ast, src = genprog.gen_case_program(s, False)
         items.append(('case:%d' % s, src, ['-O1']))
     for i in range(3 if quick else 10):
         items.append(('samename:%d' % i, gen_same_name_program(rng.randrange(1 << 30)), ['-O1']))
-    for i in range(30 if quick else 120):
+    for i in range(30 if quick else 70):
         s = rng.randrange(1 << 30)
         items.append(('tie:%d' % s, genprog.gen_greedy_tie_program(s)[1], ['-O1']))
     for n, s, a in runner.corpus_programs(('ok',)):
